@@ -292,9 +292,11 @@ func TestVerifC03(t *testing.T) {
 	rep.Note("prefix alphabet=%v max prefix length=%d reorgs=%v", ops, maxLen, c03Reorgs)
 	seen := map[uint64]bool{}
 	idx := 0
-	if os.Getenv("VERIF_C03_INJECT") != "0" {
-		// first, so that a deadline on a loaded machine cuts the tail of the older family, which is the larger one
-		c03InjectedFamily(rep, scratch, &idx)
+	inject := os.Getenv("VERIF_C03_INJECT") != "0"
+	if inject {
+		// complete runs of the injected level layouts first (cheap); their crash enumeration comes last
+		c03InjectedFamily(rep, scratch, &idx, false)
+		defer c03InjectedFamily(rep, scratch, &idx, true)
 	}
 	if os.Getenv("VERIF_C03_ONLY") == "inject" { // development aid: the injected family alone
 		return
